@@ -98,6 +98,7 @@ func c13Wrap(kind string, deflate []byte, plain []byte, dict []byte, r *gen.Rand
 
 func (c13) Run(c *mon.Ctx, i int) {
 	r := c.R
+	rolling := false // zlib: the dictionary buffer is overwritten in place before Reset
 	kind := []string{"flate", "flate", "gzip", "zlib"}[i%4]
 	history := []string{"complete", "partial-undelivered", "inside-header", "corrupt", "source-error", "at-eof", "never-read", "partial-undelivered", "faulty-synth", "faulty-synth"}[r.Intn(10)]
 	// dictionaries (zlib only)
@@ -109,6 +110,12 @@ func (c13) Run(c *mon.Ctx, i int) {
 		if r.Bool() {
 			dict1 = gen.Make(r, "alpha16", r.Range(10, 400)).B
 		}
+	}
+	if kind == "zlib" && dict0 != nil && r.Chance(1, 3) {
+		// a rolling dictionary: the caller reuses one buffer; its contents are
+		// replaced in place between the streams and the same slice is passed to Reset
+		rolling = true
+		dict1 = gen.Make(r, "alpha16", len(dict0)).B
 	}
 	// earlier stream
 	prevPlain := append(append([]byte(nil), c13Marker...), gen.Make(r, "text", r.Range(0, 40000)).B...)
@@ -151,6 +158,7 @@ func (c13) Run(c *mon.Ctx, i int) {
 	default:
 		prevSrc = bytes.NewReader(prev)
 	}
+	prevWithTail := append(append([]byte(nil), prev...), []byte("trailing bytes behind the earlier stream that get read ahead")...)
 
 	// next input
 	nextKind := []string{"valid", "valid", "reach-before-start", "stale-table", "truncated", "valid-dict", "fixed-with-matches"}[r.Intn(7)]
@@ -232,9 +240,20 @@ func (c13) Run(c *mon.Ctx, i int) {
 			next = next[:len(next)-r.Range(1, 4)]
 		}
 	}
-	srcKind := []string{"bytes.Reader", "bufio64", "bufio4096", "chunks"}[r.Intn(4)]
+	srcKind := []string{"bytes.Reader", "bufio64", "bufio4096", "chunks", "same-object-rearmed"}[r.Intn(5)]
+	if srcKind == "same-object-rearmed" && (kind != "flate" || history == "source-error") {
+		srcKind = "bytes.Reader"
+	}
+	var rearm *bytes.Reader
 	mk := func() io.Reader {
 		switch srcKind {
+		case "same-object-rearmed":
+			if rearm != nil {
+				// the very object the earlier stream was read from, re-armed in place
+				rearm.Reset(next)
+				return rearm
+			}
+			return bytes.NewReader(next)
 		case "bufio64":
 			return bufioOf(bytes.NewReader(next), 64)
 		case "bufio4096":
@@ -270,7 +289,7 @@ func (c13) Run(c *mon.Ctx, i int) {
 		fresh = run(rd, err)
 	})
 	desc := map[string]interface{}{"reader": kind, "history": history, "next": nextDesc, "next_len": len(next), "next_sha": mon.Sha(next), "source": srcKind,
-		"dict_at_construction": dict0 != nil, "dict_at_reset": dict1 != nil, "read_style": style}
+		"dict_at_construction": dict0 != nil, "dict_at_reset": dict1 != nil, "dictionary_buffer_overwritten_in_place": rolling, "read_style": style}
 	if len(next) <= 1200 {
 		desc["next_hex"] = mon.Hex(next, 1200)
 	}
@@ -278,6 +297,10 @@ func (c13) Run(c *mon.Ctx, i int) {
 		desc["stack"] = st
 		c.Violate("panic|"+mon.PanicSite(st)+"|fresh", fmt.Sprintf("fresh reader panicked: %v", pv), desc)
 		return
+	}
+	if srcKind == "same-object-rearmed" {
+		rearm = bytes.NewReader(prevWithTail)
+		prevSrc = rearm
 	}
 	pv, st = mon.Safe(func() {
 		rd, err := c13New(c.API, kind, prevSrc, dict0)
@@ -300,7 +323,12 @@ func (c13) Run(c *mon.Ctx, i int) {
 			rd.Read(make([]byte, r.Range(1, 500)))
 		case "never-read":
 		}
-		err = rd.Reset(mk(), dict1)
+		resetDict := dict1
+		if rolling && dict1 != nil && len(dict1) == len(dict0) {
+			copy(dict0, dict1) // same backing array, new contents
+			resetDict = dict0
+		}
+		err = rd.Reset(mk(), resetDict)
 		reused = run(rd, err)
 	})
 	c.Eval(2)
